@@ -30,6 +30,8 @@ import Driver.HMACModel
 import Driver.PKCS12
 import Driver.ConnRead
 import Driver.X509Names
+import Driver.KeyType
+import Driver.TemplateReuse
 open Gmsm
 
 def dispatch (toks : List String) : String :=
@@ -94,6 +96,12 @@ def dispatch (toks : List String) : String :=
     | some r => r
     | none =>
     match Driver.x509NamesDispatch toks with
+    | some r => r
+    | none =>
+    match Driver.keyTypeDispatch toks with
+    | some r => r
+    | none =>
+    match Driver.templateReuseDispatch toks with
     | some r => r
     | none =>
     match toks with
